@@ -184,6 +184,7 @@ def run(db, rep, feat, tier):
     r10(db, rep, tier)
     r11(db, rep)
     r12(db, rep)
+    r13(db, rep, runs)
     c05.r4(db, rep, ("mips", "ppc"), "R8")
 
 
@@ -388,6 +389,39 @@ def subexprs(e):
     if e[2][0] == "op":
         for a in e[2][2]:
             yield from subexprs(a)
+
+
+def r13(db, rep, runs):
+    r = rep.rule("R13", "K3", "every architectural flag or special scalar that some handler reads is assigned by some handler of the "
+                 "same lifter (a flag that is consumed but never produced makes the consumer compute on an undefined value)")
+    for arch, tab in (("mips", "translator::mips::semantics::MIPS_REGISTERS"), ("ppc", "translator::ppc::semantics::PPC_REGISTERS")):
+        regs = {x["name"] for x in (tables.const_table(db, tab) or [])}
+        reads, writes = {}, set()
+        for h, res in runs.items():
+            if res is None or ("translator::%s::" % arch) not in h:
+                continue
+            for x in res.reads:
+                if isinstance(x, str):
+                    reads.setdefault(x, h)
+            for o in res.ops:
+                if o["kind"] in ("Assign", "Load") and isinstance(o.get("dst"), str):
+                    writes.add(o["dst"])
+        sh = ilshape.Shape(db)
+        tb = sh.run(lifters.TB[arch])
+        for x in tb.reads:
+            if isinstance(x, str):
+                reads.setdefault(x, lifters.TB[arch])
+        for o in tb.ops:
+            if o["kind"] in ("Assign", "Load") and isinstance(o.get("dst"), str):
+                writes.add(o["dst"])
+        for nm in sorted(reads):
+            if nm in regs or nm == "temp":
+                continue
+            if "-" in nm and nm.split("-", 1)[0] in regs:
+                # field of a table register (cr0-eq ...): written through the table-driven helper under a formatted name
+                continue
+            r.decide(nm in writes, "%s|scalar_written|%s" % (arch, nm), db.where(db.hir[reads[nm]]) if reads[nm] in db.hir else "",
+                     "%s is read by %s but no %s handler ever assigns it" % (nm, last_seg(reads[nm]), arch))
 
 
 def r1(db, rep, hb, disp, pre, cls):
